@@ -51,9 +51,11 @@ const refPrelude = "def debug: .; def debug(f): (f | empty), .; def stderr: .; "
 // itself is not disturbed, so it does not matter whether the place is inside
 // try, ?// or label.
 var detectors = []struct{ sig, prelude string }{
-	{"fromjson-object-key-order", `def _c07_fromjson: fromjson; def fromjson: _c07_fromjson | if isempty(.. | objects | select(length > 1)) then . else _c07_mark end; `},
 	{"fromjson-nonstring-input-accepted", `def _c07_fromjson: fromjson; def fromjson: if type == "string" then . else _c07_mark end | _c07_fromjson; `},
-	{"split1-is-regex-split", `def _c07_split($s): split($s); def split($s): if ($s | type) == "string" and type == "string" and (($s | contains("\\")) or ($s | explode | implode) != $s or (explode | implode) != .) then _c07_mark else . end | _c07_split($s); `},
+	// repaired in /repo (a038e124): not listed any more, a hit is a violation
+	{"split1-backslash-separator", `def _c07_split($s): split($s); def split($s): if ($s | type) == "string" and type == "string" and ($s | contains("\\")) then _c07_mark else . end | _c07_split($s); `},
+	// still open: split/1 is a regex split, so bytes that are not valid UTF-8 behave differently
+	{"split1-regex-split-invalid-utf8", `def _c07_split($s): split($s); def split($s): if ($s | type) == "string" and type == "string" and (($s | explode | implode) != $s or (explode | implode) != .) then _c07_mark else . end | _c07_split($s); `},
 }
 
 type obs struct {
@@ -376,7 +378,7 @@ var fqVariants = []struct {
 
 // attribute names the class of a mismatch: a listed precondition, a variant
 // that removes it, or the generic kind + overloaded built-ins used.
-func attribute(t testing.TB, p *jqgen.Prog, input any, ref obs, generic string) string {
+func attribute(t testing.TB, p *jqgen.Prog, input any, fq *obs, ref obs, generic string) string {
 	for _, d := range detectors {
 		if o := refRun(d.prelude+refPrelude, p.Text, input); o.Marked {
 			return d.sig
@@ -393,6 +395,10 @@ func attribute(t testing.TB, p *jqgen.Prog, input any, ref obs, generic string) 
 		res, err, _ := eng.fqBatch(t, input, []string{v.prelude + p.Text})
 		if err == nil && len(res) == 1 {
 			if kind, _ := diff(res[0], ref); kind == "" {
+				if v.sig == "fromjson-result-is-decode-value" && fq != nil && !fq.Failed && !ref.Failed && orderOnly(*fq, ref) {
+					// the repaired key order defect (96572ba7) would look like this
+					return "fromjson-object-key-order"
+				}
 				return v.sig
 			}
 		}
@@ -405,13 +411,48 @@ func attribute(t testing.TB, p *jqgen.Prog, input any, ref obs, generic string) 
 	return generic + ":" + tag
 }
 
+// canon renders a value with every array sorted, so that two values that differ
+// only in the order of array elements get the same text.
+func canon(v any) string {
+	switch v := v.(type) {
+	case []any:
+		parts := make([]string, len(v))
+		for i, e := range v {
+			parts[i] = canon(e)
+		}
+		sort.Strings(parts)
+		return "[" + strings.Join(parts, ",") + "]"
+	case map[string]any:
+		keys := make([]string, 0, len(v))
+		for k := range v {
+			keys = append(keys, k)
+		}
+		sort.Strings(keys)
+		parts := make([]string, len(keys))
+		for i, k := range keys {
+			parts[i] = fmt.Sprintf("%q:%s", k, canon(v[k]))
+		}
+		return "{" + strings.Join(parts, ",") + "}"
+	default:
+		return show(v)
+	}
+}
+
+// orderOnly: the observables differ, but only in the order of outputs / elements.
+func orderOnly(a, b obs) bool {
+	if len(a.Values) != len(b.Values) {
+		return false
+	}
+	return canon(a.Values) == canon(b.Values)
+}
+
 // judge compares one pair, attributing a mismatch to a signature.
 func judge(t testing.TB, prog *jqgen.Prog, input any, fq obs, ref obs) (sig, msg string) {
 	kind, m := diff(fq, ref)
 	if kind == "" {
 		return "", ""
 	}
-	return attribute(t, prog, input, ref, kind), m
+	return attribute(t, prog, input, &fq, ref, kind), m
 }
 
 func caseJSON(prog string, input any) map[string]any {
@@ -503,7 +544,7 @@ func checkPairs(t testing.TB, input any, ps []pair, fail func(sig, msg string, p
 		if strings.HasPrefix(err.Error(), "panic:") {
 			sig = "fq-panics"
 		}
-		sig = attribute(t, p.prog, input, p.ref, sig)
+		sig = attribute(t, p.prog, input, nil, p.ref, sig)
 		fail(sig, fmt.Sprintf("fq does not evaluate the program (%v); gojq: %s", err, p.ref), p.prog.Text)
 		return
 	}
@@ -682,7 +723,7 @@ func cliCheck(p *jqgen.Prog, inJSON string) (sig, msg string) {
 		var v any
 		if err := dec.Decode(&v); err != nil {
 			if !errors.Is(err, io.EOF) {
-				return attribute(nil, p, input, ref, "cli-stdout-not-json"), fmt.Sprintf("stdout is not a sequence of JSON values (%v): %q", err, trunc(string(r.Stdout), 300))
+				return attribute(nil, p, input, nil, ref, "cli-stdout-not-json"), fmt.Sprintf("stdout is not a sequence of JSON values (%v): %q", err, trunc(string(r.Stdout), 300))
 			}
 			break
 		}
@@ -703,10 +744,10 @@ func cliCheck(p *jqgen.Prog, inJSON string) (sig, msg string) {
 		want.Values = append(want.Values, rv)
 	}
 	if kind, m := diff(got, want); kind != "" {
-		return attribute(nil, p, input, ref, "cli-"+kind), fmt.Sprintf("%s (exit %d)\n stdout: %q\n stderr: %q\n gojq: %s", m, r.Exit, trunc(string(r.Stdout), 400), trunc(r.Stderr, 300), want)
+		return attribute(nil, p, input, &got, ref, "cli-"+kind), fmt.Sprintf("%s (exit %d)\n stdout: %q\n stderr: %q\n gojq: %s", m, r.Exit, trunc(string(r.Stdout), 400), trunc(r.Stderr, 300), want)
 	}
 	if ref.Failed && r.Stderr == "" {
-		return attribute(nil, p, input, ref, "cli-error-without-stderr"), fmt.Sprintf("the program fails (exit %d) but nothing was written to stderr", r.Exit)
+		return attribute(nil, p, input, nil, ref, "cli-error-without-stderr"), fmt.Sprintf("the program fails (exit %d) but nothing was written to stderr", r.Exit)
 	}
 	return "", ""
 }
@@ -773,21 +814,25 @@ func TestSeeds(t *testing.T) {
 	if harness.E.Replay != "" {
 		t.Skip("replay")
 	}
-	seeds := []struct{ input, prog string }{
-		{`null`, `"a\\b" | split("\\")`},
-		{`"nan"`, `split(@base64d)`},
-		{`null`, `"{\"b\":1,\"a\":2,\"c\":3,\"d\":4,\"e\":5}" | fromjson | keys, [.[]], to_entries`},
-		{`null`, `"1" | fromjson | .a`},
-		{`null`, `"null" | fromjson | .[0]`},
-		{`null`, `"{\"a\":1}" | fromjson | ._format`},
-		{`null`, `["[{\"key\":\"a\",\"value\":1}]" | fromjson | .[]] | from_entries`},
-		{`[49]`, `fromjson`},
-		{`[1]`, `[("1" | fromjson), (foreach .[]? as $i (("^$" as $y ?// [$b] | $b) + "x"; .; .))]`},
-		{`{}`, `(def f1(g): (.["a.b"] | tojson | explode) | stderr; try f1(1e300)) | join((to_entries | map(.value)) as $x ?// {$x, b: $c, b: $x} | @json "v=\(.)" , $c)`},
-		{`"true"`, `((tojson | fromjson) | "\(.)") as $x ?// [$b, $c, $b] | ((split("\\") | length) | empty) | tojson`},
-		{`"aXbxC"`, `test("B"; "i"), test("B"), [match("x"; "gi") | .offset], [scan("[A-Z]")], capture("(?<u>[A-Z])"), split("x"), [splits("[xX]")], explode`},
-		{`{"a":[1,1e21,1e-7,12345678901234567890,-0.0,"\u007f<&>é😀"],"b":null}`, `tojson, @json, (tojson | fromjson), tostring`},
-		{`[3,1,2]`, `debug, debug("m"), stderr, (sort | group_by(. > 1)), [paths], (to_entries | from_entries? // "x")`},
+	// regression != "": the pair is the minimal input of a repaired defect; any
+	// disagreement is reported as regression:<name>, which no known: line can mask
+	seeds := []struct{ input, prog, regression string }{
+		{`null`, `"a\\b" | split("\\")`, "split1-backslash-separator"},
+		{`null`, `"a\\d1" | split("\\d"), ("x\\" | split("\\")), ("a.b\\c" | split(".")), ("\\\\" | split("\\"))`, "split1-backslash-separator"},
+		{`null`, `"{\"b\":1,\"a\":2,\"c\":3,\"d\":4,\"e\":5}" | fromjson | keys, [.[]], to_entries, [paths], [tostream], tojson`, "fromjson-object-key-order"},
+		{`null`, `"{\"z\":{\"y\":1,\"x\":2,\"w\":3},\"m\":[{\"b\":1,\"a\":2}]}" | fromjson | [..], [paths], (.m[0] | keys, to_entries), ([.z[]] | add)`, "fromjson-object-key-order"},
+		{`"nan"`, `split(@base64d)`, ""},
+		{`"true"`, `@base64d | split(tojson | fromjson)`, ""},
+		{`null`, `"1" | fromjson | .a`, ""},
+		{`null`, `"null" | fromjson | .[0]`, ""},
+		{`null`, `"{\"a\":1}" | fromjson | ._format`, ""},
+		{`null`, `["[{\"key\":\"a\",\"value\":1}]" | fromjson | .[]] | from_entries`, ""},
+		{`[49]`, `fromjson`, ""},
+		{`[1]`, `[("1" | fromjson), (foreach .[]? as $i (("^$" as $y ?// [$b] | $b) + "x"; .; .))]`, ""},
+		{`{}`, `(def f1(g): (.["a.b"] | tojson | explode) | stderr; try f1(1e300)) | join((to_entries | map(.value)) as $x ?// {$x, b: $c, b: $x} | @json "v=\(.)" , $c)`, ""},
+		{`"aXbxC"`, `test("B"; "i"), test("B"), [match("x"; "gi") | .offset], [scan("[A-Z]")], capture("(?<u>[A-Z])"), split("x"), [splits("[xX]")], explode`, ""},
+		{`{"a":[1,1e21,1e-7,12345678901234567890,-0.0,"\u007f<&>é😀"],"b":null}`, `tojson, @json, (tojson | fromjson), tostring`, ""},
+		{`[3,1,2]`, `debug, debug("m"), stderr, (sort | group_by(. > 1)), [paths], (to_entries | from_entries? // "x")`, ""},
 	}
 	for i, sd := range seeds {
 		input, err := parseInput(sd.input)
@@ -798,6 +843,9 @@ func TestSeeds(t *testing.T) {
 		ref := refRun(refPrelude, sd.prog, input)
 		harness.Count(harness.HashInts(7, uint64(i)), true, "seed")
 		report := func(sig, msg, prog string) {
+			if sd.regression != "" {
+				sig = "regression:" + sd.regression
+			}
 			if harness.Violate(t.Name(), sig, msg, caseJSON(prog, input)) {
 				t.Errorf("seed %d [%s] %s", i, sig, msg)
 			}
